@@ -718,7 +718,9 @@ coap_add_data_large_internal(coap_session_t *session,
 
     /* See if this token is already in use for large bodies (unlikely) */
     LL_FOREACH_SAFE(session->lg_xmit, lg_xmit, q) {
-      if (coap_binary_equal(&pdu->actual_token, lg_xmit->b.b1.app_token)) {
+      /* Only a request's state has the (Block1) tokens in it */
+      if (COAP_PDU_IS_REQUEST(&lg_xmit->pdu) &&
+          coap_binary_equal(&pdu->actual_token, lg_xmit->b.b1.app_token)) {
         /* Unfortunately need to free this off as potential size change */
         LL_DELETE(session->lg_xmit, lg_xmit);
         coap_block_delete_lg_xmit(session, lg_xmit);
